@@ -1323,6 +1323,8 @@ class Emitter:
             return True
         if e and e[0] == "call" and e[1][0] == "path" and e[1][1] == ["Err"]:
             return True
+        if e and e[0] == "bin" and e[1] == "-" and self.cfg.get("checked_sub"):
+            return True
         return any(self.has_effect(x) for x in e[1:] if isinstance(x, (tuple, list)))
 
     def mutates(self, e):
@@ -1379,6 +1381,13 @@ class Emitter:
         if kind == "struct":
             names = [f for f, _ in e[2]]
             return self.o_seq([x for _, x in e[2]], lambda vs: k(self.ex(("struct", e[1], list(zip(names, vs))))))
+        if kind == "bin" and e[1] == "-" and self.cfg.get("checked_sub"):
+            # unsigned subtraction as the debug build performs it: an underflow is a panic
+            def sub(vs):
+                r = self.fresh()
+                a, b = self.atom(vs[0]), self.atom(vs[1])
+                return f"(((if {b} ≤ {a} then Outcome.ok ({a} - {b}) else .panic \"\") : Outcome Nat).bind fun {r} =>\n{k(r)})"
+            return self.o_seq([e[2], e[3]], sub)
         if kind == "bin":
             return self.o_seq([e[2], e[3]], lambda vs: k(self.ex(("bin", e[1], vs[0], vs[1]))))
         if kind == "cast":
